@@ -1,6 +1,6 @@
 """C17 — oscillators and noise sources keep phase and amplitude in range at any rate.
 Proof: coq/props/C17.v (phase formula / waveform formulas / one control frame per output on exact
-reals; phase, saw, square, sine, noise ranges and noise purity on IEEE binary64; simplex bound on reals).
+reals; phase, saw, square, sine, noise, simplex ranges and noise purity on IEEE binary64; simplex bound on reals too).
 Tie: correspondence between the binary64 instance of the model (Signal/OscRun.v, evaluated by coqc)
 and dasp_signal's Phase/Sine/Saw/Square/NoiseSimplex/Noise on the same rates, frequency sequences and seeds."""
 import json, os, math, struct, subprocess, sys
@@ -9,9 +9,9 @@ import floatbase
 
 PROP = "C17"
 META = dict(
-    technique="Coq proof over one model with two arithmetics (exact reals + Flocq IEEE binary64; Interval for the simplex bound) + coqc-evaluated binary64 model vs crate correspondence",
-    text="Machine-checked (Coq 8.16.1, Flocq 4.1, Interval) theorems about a model of Phase/ConstHz/Hz/Sine/Saw/Square/Noise/NoiseSimplex written after dasp_signal/src/lib.rs over an abstract numeric record: on exact reals the n-th phase is frac(sum hz_k/rate), saw = 1-2*phase, square = +1 on [0,1/2) and -1 on [1/2,1), sine = sin(2*pi*phase), |simplex| <= 1, and a variable-frequency oscillator pulls exactly one control frame per output; on IEEE binary64 (x % w proved exact) every phase of every finite non-negative step sequence of any length lies in [0,1), saw/sine in [-1,1], square in {-1,+1}, noise in (-1,1] and equal to noise_1((seed+n) mod 2^64). The binary64 instance is executed inside coqc and compared with the real crate: phases, saw, square, simplex, noise, pull counters bit-for-bit; sine within 4 ulp of libm's value at the model's argument. Control signals of the variable-frequency oscillator include the crate's own gen/gen_mut/from_iter sources and add_amp/mul_amp/zip_map/scale_amp/offset_amp composites run past the end of their finite part, with call counters on both parts (exactly one control frame per output frame). The same cases are diffed against the release profile and the no_std-configured build. Known class K1 (hz/rate overflows to +inf) is routed through KNOWN_FINDINGS.json.",
-    note="Trusted: Coq kernel + the 4 standard real-number/classical axioms (and the primitive-integer axioms used by Interval for the simplex bound); Base/Float.v validated against rustc (floatbase); libm sin enters as a Section variable with |sin x| <= 1 on finite x as hypothesis; the simplex bound is proved for exact arithmetic only, the rounded evaluation is compared bit-for-bit on the sampled phases and range-sampled on long runs.",
+    technique="Coq proof over one model with two arithmetics (exact reals + Flocq IEEE binary64; Interval for the simplex bound, on reals and on the rounded evaluation) + coqc-evaluated binary64 model vs crate correspondence",
+    text="Machine-checked (Coq 8.16.1, Flocq 4.1, Interval) theorems about a model of Phase/ConstHz/Hz/Sine/Saw/Square/Noise/NoiseSimplex written after dasp_signal/src/lib.rs over an abstract numeric record: on exact reals the n-th phase is frac(sum hz_k/rate), saw = 1-2*phase, square = +1 on [0,1/2) and -1 on [1/2,1), sine = sin(2*pi*phase), |simplex| <= 1, and a variable-frequency oscillator pulls exactly one control frame per output; on IEEE binary64 (x % w proved exact) every phase of every finite non-negative step sequence of any length lies in [0,1), saw/sine in [-1,1], square in {-1,+1}, noise in (-1,1] and equal to noise_1((seed+n) mod 2^64), and the simplex noise AS THE CODE EVALUATES IT (every + - * rounded to nearest even, floor and the integer casts exact, PERM lookup and gradient selection on integers) is finite and in [-1,1] for every finite argument in [-2^63, 2^63) (where `floor(x) as i64` does not saturate), hence on every frame of every run (phase < 65536). The binary64 instance is executed inside coqc and compared with the real crate: phases, saw, square, simplex, noise, pull counters bit-for-bit; sine within 4 ulp of libm's value at the model's argument. Control signals of the variable-frequency oscillator include the crate's own gen/gen_mut/from_iter sources and add_amp/mul_amp/zip_map/scale_amp/offset_amp composites run past the end of their finite part, with call counters on both parts (exactly one control frame per output frame). The same cases are diffed against the release profile and the no_std-configured build. Known class K1 (hz/rate overflows to +inf) is routed through KNOWN_FINDINGS.json.",
+    note="Trusted: Coq kernel + the 4 standard real-number/classical axioms (and the primitive-integer axioms used by Interval for the two simplex bounds); Base/Float.v validated against rustc (floatbase); libm sin enters as a Section variable with |sin x| <= 1 on finite x as hypothesis; the simplex bound is proved for exact arithmetic and for the binary64 evaluation of the model (Interval 4.6.1 evaluating Flocq's round operator; margin 1e-4), the binary64 model is compared bit-for-bit with the crate on the sampled phases and the crate is range-sampled on long runs.",
     design="6/C17")
 HEADER = "From Dasp Require Import Signal.OscRun."
 CHECK = "check"
@@ -471,7 +471,7 @@ def finish(rep, info, n, nontriv, dist, samples, bad=(), extra=None):
         "obligations": max(1, len(th)), "discharged": len(th) if info.get("coq_ok") else 0,
         "checker_cmd": "make -f Makefile.coq props/C17.vo (coqc 8.16.1, full .vo) + Print Assumptions audit",
         "trusted_base": F.TRUSTED_COMMON + [
-            "axioms: Coq's real-number axioms (ClassicalDedekindReals.sig_forall_dec, sig_not_dec, functional_extensionality_dep) and Classical_Prop.classic via Reals/Flocq; for c17_simplex_real additionally the primitive 63-bit integer operations and their specification axioms used by Interval (vm_compute)",
+            "axioms: Coq's real-number axioms (ClassicalDedekindReals.sig_forall_dec, sig_not_dec, functional_extensionality_dep) and Classical_Prop.classic via Reals/Flocq; for c17_simplex_real, c17_simplex_ieee and c17_simplex_range additionally the primitive 63-bit integer operations and their specification axioms used by Interval (vm_compute)",
             "Flocq 4.1.0 BinarySingleNaN as the meaning of f64 + - * / % floor compare (Base/Float.v, validated against rustc by lib/floatbase.py in this run)",
             "libm sin: a Section variable with hypothesis 'finite x -> sin x finite and |sin x| <= 1'; compared with a 4-ulp tolerance, never proved",
             "translate/simplex_table.py (copies PERM and the literals of noise_1/simplex_noise_1d from the source)",
@@ -481,12 +481,12 @@ def finish(rep, info, n, nontriv, dist, samples, bad=(), extra=None):
         "evaluations": n, "distinct_nontrivial": nontriv,
         "rule": "each evaluation = one run: (rate, const or per-frame frequency sequence, n frames) through phase+saw+square+sine+noise_simplex, or (seed, n, clone point) through noise with clone and restart; non-trivial = the phase wraps at least once, or some hz > rate, or seed+n crosses 2^64, or (composite/finite control) the run continues past the end of the finite from_iter part",
         "samples": samples, "input_distribution": dist, "disagreements": len(bad),
-        "explanation": "theorems: exact-real formulas for phase/saw/square/sine/simplex bound, pull-counter theorem, IEEE binary64 range theorems for phase/saw/square/sine/noise and noise purity for every step sequence/seed/length; tie: the binary64 instance of the same model run by coqc on the same cases as the crate, compared bit-for-bit (sine: 4 ulp to libm at the model's argument). The simplex bound for the ROUNDED evaluation is not proved: it is only sampled (bit-exact agreement on the generated phases + range sampling of long runs).",
+        "explanation": "theorems: exact-real formulas for phase/saw/square/sine/simplex bound, pull-counter theorem, IEEE binary64 range theorems for phase/saw/square/sine/noise/simplex and noise purity for every step sequence/seed/length; tie: the binary64 instance of the same model run by coqc on the same cases as the crate, compared bit-for-bit (sine: 4 ulp to libm at the model's argument). The simplex bound for the ROUNDED evaluation is proved for the binary64 instance of the model (c17_simplex_ieee, c17_simplex_range); that this instance is what the crate computes is the bit-exact agreement on the generated phases (+ range sampling of long runs of the crate).",
     }
     cov.update(extra or {})
     return rep.finish("proof", cov, [
         "sin is an oracle (libm) assumed finite with |sin x| <= 1 on finite arguments",
-        "simplex bound proved on exact reals; binary64 evaluation sampled only (margin 1.6e-4 vs rounding error ~1e-15)",
+        "simplex bound proved on exact reals and on the binary64 model (margin 1e-4 left after rounding); i64 `i0 + 1` modelled on unbounded Z (no overflow for x in [-2^63, 2^63))",
         "steps are assumed finite (class K1 excluded: hz/rate overflowing to +inf is a listed known finding)",
         "the harness observes through the public API only"])
 
